@@ -1946,6 +1946,21 @@ func TestVerifC05(t *testing.T) {
 	c.Set("manager_states", res2.States)
 	c.Set("manager_transitions", res2.Transitions)
 	c.Set("manager_depth", res2.MaxDepth)
+	// Second manager-level search from a NON-initial state: the probe history (V<->B established through the wire, honest stub C
+	// accepted by V) first, then every event sequence up to the bound. Anything a node remembers about a certificate it has
+	// already accepted (caches keyed by fingerprint / signature, hostmap entries to be replaced) is only reachable from here
+	// within the quick depth.
+	if st.viol.Load() == 0 && !c.OutOfTime() {
+		res3 := mc.BFSReplay(c, mc.BFSConfig[c05NEv]{MaxDepth: mc.Pick(c, 3, 4), Workers: 1, Label: nl,
+			Stop: func() bool { return st.viol.Load() > 100 || c.OutOfTime() },
+			Run: func(hist []c05NEv) (string, []c05NEv) {
+				k, _, mn := runNet(append(append([]c05NEv{}, probe...), hist...))
+				return k, mn
+			}})
+		c.Set("manager_after_honest_handshakes_states", res3.States)
+		c.Set("manager_after_honest_handshakes_transitions", res3.Transitions)
+		c.Set("manager_after_honest_handshakes_depth", res3.MaxDepth)
+	}
 	c.Set("machine_states", machineStates)
 
 	// ---- evidence
